@@ -11,6 +11,8 @@ import CLModel.Proofs.C20Dup
 import CLModel.Proofs.C20Obj
 import CLModel.Proofs.C20Keyed
 import CLModel.Proofs.C20Equiv
+import CLModel.Compare.C20Heap
+import CLModel.Proofs.C20Heap
 namespace C20
 open AR
 
@@ -349,5 +351,235 @@ example : (KT.new [⟨5, 0⟩, ⟨6, 1⟩, ⟨5, 2⟩] : KT Nat).itemPairs = [(5
     (KT.new [⟨5, 0⟩, ⟨6, 1⟩, ⟨5, 2⟩] : KT Nat).getitem (.slice (some 1) none) = .tuple [⟨6, 1⟩, ⟨5, 2⟩] ∧
     (KT.new [⟨5, 0⟩, ⟨6, 1⟩, ⟨5, 2⟩] : KT Nat).getitem (.int (-1)) = .ent ⟨5, 2⟩ ∧
     (KT.new [⟨5, 0⟩, ⟨6, 1⟩, ⟨5, 2⟩] : KT Nat).contains .unhashable = false := by decide
+
+/-! ## Round 5 — INTERACTION histories: a heap of `KeyedTuple`s, `AddRemove`s and caller-owned lists
+with explicit aliasing (`Compare/C20Heap.lean`)
+
+The streams of round 4 drive ONE object each.  Here several objects live in one history and results
+of one are handed to another BY REFERENCE, as `compare/content.py` and `merge.py` do
+(`ar.set_left(kt.keys())`).  A list is a cell `Ref` of the heap; an `AddRemove` attribute holds a
+`Ref`; a `KeyedTuple` holds values only.  The two facts that make the hand-over safe are theorems:
+`keys_fresh` (what `keys()` hands out is a new list nobody else refers to) and `addremove_readonly`
+(no `AddRemove` operation changes the contents of any list).  A change of the code that breaks either
+of them breaks the correspondence `c20.heap`; the two together break `heap_kt_forever`, which the
+oracle checks on the implementation (every `KeyedTuple` answer, at any point of any history, is the
+closed form over the elements the object was built from). -/
+
+section Heap
+open C20H
+
+/-- **`keys()` returns a fresh list each call**: the list made of `kt.keys()` is a NEW cell (its
+    address is the old size of the heap, so it differs from every existing list and from the list of
+    every other call), it holds the keys in file order, NO `AddRemove` refers to it, and the call
+    leaves every `KeyedTuple` (and every other component) as it was. -/
+theorem keys_fresh (h : Heap κ) (hw : h.WF) (t : Nat) (k : KT κ) (hk : h.kts[t]? = some k) :
+    (h.step (.keysToList t)).2 = .keys (k.items.map (·.key)) ∧
+    (h.step (.keysToList t)).1.lists = h.lists ++ [k.items.map (·.key)] ∧
+    (h.step (.keysToList t)).1.Unshared h.lists.length ∧
+    (h.step (.keysToList t)).1.kts = h.kts ∧ (h.step (.keysToList t)).1.ars = h.ars ∧
+    (h.step (.keysToList t)).1.elists = h.elists := by
+  refine ⟨by simp [Heap.step, hk, KT.keys], by simp [Heap.step, hk, KT.keys], ?_, by simp [Heap.step, hk],
+    by simp [Heap.step, hk], by simp [Heap.step, hk]⟩
+  simp only [Heap.step, hk]
+  intro o ho
+  have := hw o ho
+  refine ⟨fun e => ?_, fun e => ?_⟩
+  · exact Nat.lt_irrefl _ (this.1 _ e)
+  · exact Nat.lt_irrefl _ (this.2 _ e)
+
+/-- two calls of `keys()` give two different lists with the same contents -/
+theorem keys_fresh_each_call (h : Heap κ) (t : Nat) (k : KT κ) (hk : h.kts[t]? = some k) :
+    (Heap.final h [.keysToList t, .keysToList t]).lists = h.lists ++ [k.keys, k.keys] ∧
+    Heap.trace h [.keysToList t, .keysToList t] = [.keys k.keys, .keys k.keys] := by
+  simp [Heap.final, Heap.trace, Heap.step, hk]
+
+/-- the list `set_left(kt.keys())` stores is a NEW one as well: only that attribute refers to it -/
+theorem set_left_keys_fresh (h : Heap κ) (hw : h.WF) (a t : Nat) (o : ARObj) (k : KT κ)
+    (ho : h.ars[a]? = some o) (hk : h.kts[t]? = some k) :
+    (h.step (.setLeft a (.keysOf t))).1 =
+      { h with lists := h.lists ++ [k.keys], ars := h.ars.set a { o with left := some h.lists.length } } ∧
+    ∀ o' ∈ h.ars, o'.left ≠ some h.lists.length ∧ o'.right ≠ some h.lists.length := by
+  refine ⟨by simp [Heap.step, Heap.storeSrc, ho, hk], fun o' ho' => ?_⟩
+  have := hw o' ho'
+  exact ⟨fun e => Nat.lt_irrefl _ (this.1 _ e), fun e => Nat.lt_irrefl _ (this.2 _ e)⟩
+
+/-- **`set_left(list)` / `set_right(list)` ALIAS the caller's list**: the attribute refers to the
+    very cell that was handed over; nothing is copied (recorded behaviour of the unchanged code) -/
+theorem set_aliases (h : Heap κ) (a : Nat) (r : Ref) (o : ARObj) (ho : h.ars[a]? = some o)
+    (hr : r < h.lists.length) :
+    (h.step (.setLeft a (.ref r))).1 = { h with ars := h.ars.set a { o with left := some r } } ∧
+    (h.step (.setRight a (.ref r))).1 = { h with ars := h.ars.set a { o with right := some r } } := by
+  simp [Heap.step, Heap.storeSrc, ho, hr]
+
+/-- **`AddRemove` never mutates a list it was given** (nor any other): creating an instance, either
+    setter with any argument, and iterating leave the contents of every existing list, every entity
+    list and every `KeyedTuple` unchanged. -/
+theorem addremove_readonly (h : Heap κ) (op : C20H.Op κ)
+    (hop : op = .newAR ∨ (∃ a s, op = .setLeft a s) ∨ (∃ a s, op = .setRight a s) ∨ ∃ a, op = .iterate a)
+    (r : Ref) (hr : r < h.lists.length) :
+    (h.step op).1.lists[r]? = h.lists[r]? ∧ (h.step op).1.elists = h.elists ∧
+    (h.step op).1.kts = h.kts := by
+  refine ⟨C20HP.step_lists_frame h op r hr ?_, ?_, ?_⟩
+  · intro m e
+    rcases hop with rfl | ⟨a, s, rfl⟩ | ⟨a, s, rfl⟩ | ⟨a, rfl⟩ <;> cases e
+  · rcases hop with rfl | ⟨a, s, rfl⟩ | ⟨a, s, rfl⟩ | ⟨a, rfl⟩
+    · rfl
+    · simp only [Heap.step]
+      split
+      · next o h' r' _ hs => simp [(C20HP.storeSrc_spec h h' s r' hs).2.2.1]
+      · rfl
+    · simp only [Heap.step]
+      split
+      · next o h' r' _ hs => simp [(C20HP.storeSrc_spec h h' s r' hs).2.2.1]
+      · rfl
+    · simp only [Heap.step]
+      split <;> rfl
+  · rcases hop with rfl | ⟨a, s, rfl⟩ | ⟨a, s, rfl⟩ | ⟨a, rfl⟩
+    · rfl
+    · simp only [Heap.step]
+      split
+      · next o h' r' _ hs => simp [(C20HP.storeSrc_spec h h' s r' hs).1]
+      · rfl
+    · simp only [Heap.step]
+      split
+      · next o h' r' _ hs => simp [(C20HP.storeSrc_spec h h' s r' hs).1]
+      · rfl
+    · simp only [Heap.step]
+      split <;> rfl
+
+/-- **the contents of a list change only by the caller's own mutations of that list**: after ANY
+    history (setters, iterations, `keys()`, new objects, mutations of other lists, …) the list `r`
+    holds its old contents with exactly the caller's mutations of `r` applied, in order. -/
+theorem heap_cell_spec (h : Heap κ) (ops : List (C20H.Op κ)) (r : Ref) (c : List κ) (hc : h.lists[r]? = some c) :
+    (Heap.final h ops).lists[r]? = some (applyMuts c (mutsOf r ops)) :=
+  C20HP.final_cell h ops r c hc
+
+/-- **iterating yields the closed form of the CURRENT contents of the two lists** the attributes
+    refer to (so a caller who mutates a list it handed over by reference changes the next diff — the
+    unchanged code does exactly that), `TypeError` while a side is `None`; the heap is unchanged. -/
+theorem heap_iterate_spec (h : Heap κ) (hw : h.WF) (a : Nat) (o : ARObj) (ho : h.ars[a]? = some o) :
+    h.step (.iterate a) = (h, .diff (specOut (h.deref o.left) (h.deref o.right))) := by
+  have hom : o ∈ h.ars := List.mem_of_getElem? ho
+  obtain ⟨hl, hr⟩ := hw o hom
+  simp only [Heap.step, ho, Heap.iterate, Heap.deref]
+  cases hL : o.left with
+  | none => rfl
+  | some l =>
+    cases hR : o.right with
+    | none =>
+      obtain ⟨lc, hlc⟩ : ∃ lc, h.lists[l]? = some lc := ⟨_, List.getElem?_eq_getElem (hl l hL)⟩
+      simp [hlc, specOut]
+    | some r =>
+      obtain ⟨lc, hlc⟩ : ∃ lc, h.lists[l]? = some lc := ⟨_, List.getElem?_eq_getElem (hl l hL)⟩
+      obtain ⟨rc, hrc⟩ : ∃ rc, h.lists[r]? = some rc := ⟨_, List.getElem?_eq_getElem (hr r hR)⟩
+      simp only [Option.bind_some, hlc, hrc, specOut, C20P.addRemove_eq_specD]
+
+/-- the same at any point of any history from the empty heap: the n-th operation, if an iteration of
+    `A a`, observes the closed form of what the two lists it refers to hold AT THAT MOMENT (by
+    `heap_cell_spec`: their contents at creation changed by their owner's mutations only). -/
+theorem heap_iterate_history (ops : List (C20H.Op κ)) (n a : Nat) (o : ARObj)
+    (hq : ops[n]? = some (.iterate a)) (ho : (Heap.final Heap.init (ops.take n)).ars[a]? = some o) :
+    (Heap.trace Heap.init ops)[n]? =
+      some (.diff (specOut ((Heap.final Heap.init (ops.take n)).deref o.left)
+        ((Heap.final Heap.init (ops.take n)).deref o.right))) := by
+  rw [C20HP.trace_getElem?, hq, Option.map_some,
+    heap_iterate_spec _ (C20HP.final_wf _ _ C20HP.init_wf) a o ho]
+
+/-- the invariants hold in every heap reachable from the empty one -/
+theorem heap_reachable_wf (ops : List (C20H.Op κ)) :
+    (Heap.final Heap.init ops).WF ∧ (Heap.final Heap.init ops).KTInv :=
+  ⟨C20HP.final_wf _ ops C20HP.init_wf, C20HP.final_ktinv _ ops C20HP.init_ktinv⟩
+
+/-- `KeyedTuple(...)` COPIES: the new object is `KeyedTuple` of the elements the argument has NOW
+    (new entities / the caller's list / another object's values, items, sum), at a new address. -/
+theorem heap_newkt_spec (h : Heap κ) (s : KSrc κ) (es : List (Ent κ)) (n : Nat) (hs : h.ksrcEnts s = some (es, n)) :
+    (h.step (.newKT s)).1.kts = h.kts ++ [KT.new es] ∧ (h.step (.newKT s)).1.lists = h.lists ∧
+    (h.step (.newKT s)).1.elists = h.elists ∧ (h.step (.newKT s)).1.ars = h.ars := by
+  simp [Heap.step, hs]
+
+/-- … and what the caller does to its list AFTERWARDS (or anything else that happens) does not reach
+    the object: after any history it is still the `KeyedTuple` of the contents at construction. -/
+theorem heap_newkt_copies (h : Heap κ) (r : Ref) (es : List (Ent κ)) (hes : h.elists[r]? = some es)
+    (ops : List (C20H.Op κ)) :
+    (Heap.final (h.step (.newKT (.elist r))).1 ops).kts[h.kts.length]? = some (KT.new es) := by
+  apply C20HP.final_kts_getElem?
+  simp [Heap.step, Heap.ksrcEnts, hes]
+
+/-- **Immutability across the whole interaction.**  In every history over the heap, if the
+    `KeyedTuple` number `t` exists after the first `m` operations with elements `es`, then EVERY later
+    query on it — whatever was handed to whichever `AddRemove`, whichever list was mutated, whatever
+    was iterated or built in between — answers the closed form over `es` (file order with duplicates
+    for `keys/values/items`, the last entity for `kt[key]`, …). -/
+theorem heap_kt_forever (ops : List (C20H.Op κ)) (m n t : Nat) (hmn : m ≤ n) (k : KT κ) (q : Q κ)
+    (hk : (Heap.final Heap.init (ops.take m)).kts[t]? = some k) (hq : ops[n]? = some (.ask t q)) :
+    (Heap.trace Heap.init ops)[n]? = some (.res (specAsk k.items q)) := by
+  rw [C20HP.trace_getElem?, hq, Option.map_some]
+  have hsplit : ops.take n = ops.take m ++ (ops.take n).drop m := by
+    have := List.take_append_drop m (ops.take n)
+    rw [List.take_take, Nat.min_eq_left hmn] at this
+    exact this.symm
+  have hk' : (Heap.final Heap.init (ops.take n)).kts[t]? = some k := by
+    rw [hsplit, C20HP.final_append]
+    exact C20HP.final_kts_getElem? _ _ t k hk
+  have hinv : k = KT.new k.items :=
+    (heap_reachable_wf (ops.take n)).2 k (List.mem_of_getElem? hk')
+  simp only [Heap.step, hk', C20HP.ktinv_step k hinv q]
+
+/-- the same for the lists made of `keys()` / `values()` / `items()` at any later point -/
+theorem heap_kt_lists_forever (ops : List (C20H.Op κ)) (m n t : Nat) (hmn : m ≤ n) (k : KT κ)
+    (hk : (Heap.final Heap.init (ops.take m)).kts[t]? = some k) :
+    (ops[n]? = some (.keysToList t) → (Heap.trace Heap.init ops)[n]? = some (.keys (k.items.map (·.key)))) ∧
+    (ops[n]? = some (.valuesToList t) → (Heap.trace Heap.init ops)[n]? = some (.ents k.items)) ∧
+    (ops[n]? = some (.itemsToList t) →
+      (Heap.trace Heap.init ops)[n]? = some (.res (.items (k.items.map (fun v => (v.key, v)))))) := by
+  have hsplit : ops.take n = ops.take m ++ (ops.take n).drop m := by
+    have := List.take_append_drop m (ops.take n)
+    rw [List.take_take, Nat.min_eq_left hmn] at this
+    exact this.symm
+  have hk' : (Heap.final Heap.init (ops.take n)).kts[t]? = some k := by
+    rw [hsplit, C20HP.final_append]
+    exact C20HP.final_kts_getElem? _ _ t k hk
+  refine ⟨fun hq => ?_, fun hq => ?_, fun hq => ?_⟩ <;>
+    (rw [C20HP.trace_getElem?, hq, Option.map_some]; simp [Heap.step, hk', KT.keys, KT.values, KT.itemPairs])
+
+/-- the flow of `ContentComparer.compare`: `ar.set_left(ref.keys()); ar.set_right(l10n.keys());
+    list(ar)` and then any query on either file: the diff is the closed form of the two key
+    sequences in file order, and the query is answered as if nothing had happened. -/
+theorem heap_content_flow (h : Heap κ) (hi : h.KTInv) (a t u : Nat) (kt ku : KT κ)
+    (q : Q κ) (ha : a < h.ars.length) (ht : h.kts[t]? = some kt) (hu : h.kts[u]? = some ku) :
+    Heap.trace h [.setLeft a (.keysOf t), .setRight a (.keysOf u), .iterate a, .ask t q, .ask u q] =
+      [.nothing, .nothing, .diff (.ok (specD (kt.items.map (·.key)) (ku.items.map (·.key)))),
+        .res (specAsk kt.items q), .res (specAsk ku.items q)] := by
+  have hkt := C20HP.ktinv_step kt (hi kt (List.mem_of_getElem? ht)) q
+  have hku := C20HP.ktinv_step ku (hi ku (List.mem_of_getElem? hu)) q
+  simp [Heap.trace, Heap.step, Heap.storeSrc, Heap.iterate, ht, hu, ha, hkt, hku, KT.keys,
+    C20P.addRemove_eq_specD]
+
+/-! non-vacuity / witnesses for round 5 -/
+
+/-- a caller who mutates a list it handed over BY REFERENCE changes the next diff (aliasing), while the
+    list made of `keys()` and the `KeyedTuple` are out of its reach -/
+example :
+    Heap.trace (Heap.init : Heap Nat)
+      [.newList [1, 2], .newKT (.lit [2, 3, 2]), .newAR, .setLeft 0 (.ref 0), .setRight 0 (.keysOf 0),
+        .iterate 0, .mutList 0 (.append 3), .readList 1, .ask 0 .keys] =
+      [.nothing, .nothing, .nothing, .nothing, .nothing,
+        .diff (.ok (addRemove [1, 2] [2, 3, 2])), .nothing, .keys [2, 3, 2], .res (.keys [2, 3, 2])] := by
+  rfl
+
+example : (Heap.final (Heap.init : Heap Nat)
+      [.newList [1, 2], .newKT (.lit [2, 3, 2]), .newAR, .setLeft 0 (.ref 0), .setRight 0 (.keysOf 0),
+        .mutList 0 (.append 3)]).lists = [[1, 2, 3], [2, 3, 2]] ∧
+    (Heap.final (Heap.init : Heap Nat)
+      [.newList [1, 2], .newKT (.lit [2, 3, 2]), .newAR, .setLeft 0 (.ref 0), .setRight 0 (.keysOf 0),
+        .mutList 0 (.append 3)]).ars = [{ left := some 0, right := some 1 }] := ⟨rfl, rfl⟩
+
+/-- `heap_iterate_spec` needs `WF`: an attribute that refers to no list is outside the model -/
+example : ¬ ({ lists := [], elists := [], kts := [], ars := [{ left := some 0, right := some 0 }], nextId := 0 } :
+    Heap Nat).WF := by
+  intro hw
+  exact Nat.lt_irrefl 0 ((hw _ (List.mem_singleton.mpr rfl)).1 0 rfl)
+
+end Heap
 
 end C20
